@@ -17,8 +17,11 @@
    A step is `frontend` (argument validation in memory.cpp / device.cpp, producing the request that is
    handed to the backend) followed by `exec` (what serial::memory / serial::buffer do with it).
 
-   The six behaviours that fixes/C02-1..6 change are parameters (record cfg) so that both the pinned and
+   The seven behaviours that fixes/C02-1..7 change are parameters (record cfg) so that both the pinned and
    the repaired code are expressible; `fixed` is the code after the patches, `pinned` the code before.
+   With C02-7 every `dtypeSize * entries` goes through occa::entriesToBytes (src/occa/internal/core/memory.cpp),
+   which raises for a negative count and for a product above (2^63-1)/2: the wrapping products of the
+   pinned code are the branch `fx_ovf = false`.
    No proofs in this file. *)
 From Coq Require Import List ZArith Bool Lia.
 From OV.C02 Require Import Base.
@@ -31,10 +34,13 @@ Record cfg : Type := mkCfg {
   fx_this   : bool;  (* C02-3: copies on an uninitialized `this` raise instead of returning                  *)
   fx_null   : bool;  (* C02-4: slice/clone of an uninitialized handle raise instead of returning memory()    *)
   fx_src    : bool;  (* C02-5: malloc(entries,dtype,memory src) copies when src.isInitialized() (was src.size()) *)
-  fx_move   : bool   (* C02-6: serial::memory::copyFrom(modeMemory_t ptr) uses memmove (was memcpy)             *)
+  fx_move   : bool;  (* C02-6: serial::memory::copyFrom(modeMemory_t ptr) uses memmove (was memcpy)             *)
+  fx_ovf    : bool   (* C02-7: entries -> bytes through the overflow-checked entriesToBytes                     *)
 }.
-Definition fixed  : cfg := mkCfg true true true true true true.
-Definition pinned : cfg := mkCfg false false false false false false.
+Definition fixed  : cfg := mkCfg true true true true true true true.
+Definition pinned : cfg := mkCfg false false false false false false false.
+(* the code after fixes C02-1..6 only (wrapping arithmetic still in place) *)
+Definition fixed6 : cfg := mkCfg true true true true true true false.
 
 (* ---------------------------------------------------------------- C integer arithmetic *)
 Definition two63 : Z := 9223372036854775808.
@@ -60,6 +66,21 @@ Definition smul (a b : Z) : res Z := if in64 (a * b) then Ret (a * b) else Crash
 Definition sadd (a b : Z) : res Z := if in64 (a + b) then Ret (a + b) else Crash COvf.
 (* OCCA_ERROR(msg, cond) *)
 Definition check (cond : bool) : res unit := if cond then Ret tt else Throw.
+
+(* occa::entriesToBytes(entries, dtypeSize): maxBytes = numeric_limits<dim_t>::max() / 2 *)
+Definition max_bytes : Z := 4611686018427387903.
+Definition entries_to_bytes (entries dt : Z) : res Z :=
+  _ <- check (0 <=? entries) ;;
+  _ <- check ((dt <=? 0) || (entries <=? max_bytes / dt)) ;;
+  smul entries dt.
+
+(* dtypeSize * <udim_t expression>, stored in a dim_t: the wrapping unsigned product of the pinned code, or
+   entriesToBytes applied to the expression converted to dim_t *)
+Definition bytes_of (c : cfg) (dt elemsU : Z) : res Z :=
+  if fx_ovf c then entries_to_bytes (toS elemsU) dt else Ret (toS (umul dt elemsU)).
+(* dtypeSize * offset: signed product of the pinned code, or entriesToBytes *)
+Definition offset_of (c : cfg) (dt offset : Z) : res Z :=
+  if fx_ovf c then entries_to_bytes offset dt else smul dt offset.
 
 (* ---------------------------------------------------------------- state *)
 (* modeMemory_t: buffer, absolute byte offset into it, size in bytes, dtype size *)
@@ -106,9 +127,9 @@ Definition memory_slice (c : cfg) (h : option mem) (offset count : Z) : res (opt
   | Some m =>
       _ <- check (negb (fx_negoff c) || (0 <=? offset)) ;;
       let dt := mdt m in
-      offset_ <- smul dt offset ;;
+      offset_ <- offset_of c dt offset ;;
       let elems := if count =? -1 then toU (m_len m - offset) else toU count in
-      let bytes := toS (umul dt elems) in
+      bytes <- bytes_of c dt elems ;;
       _ <- check (0 <=? bytes) ;;
       sum <- sadd offset count ;;
       _ <- check (sum <=? toS (m_len m)) ;;
@@ -117,11 +138,11 @@ Definition memory_slice (c : cfg) (h : option mem) (offset count : Z) : res (opt
   end.
 
 (* the part that host-pointer copyFrom and copyTo share: (bytes, offset_) as udim_t *)
-Definition host_copy_args (m : mem) (count offset : Z) : res (Z * Z) :=
+Definition host_copy_args (c : cfg) (m : mem) (count offset : Z) : res (Z * Z) :=
   let dt := mdt m in
   let elems := if count =? -1 then m_len m else toU count in
-  let bytes := toS (umul dt elems) in
-  offset_ <- smul dt offset ;;
+  bytes <- bytes_of c dt elems ;;
+  offset_ <- offset_of c dt offset ;;
   _ <- check (-1 <=? bytes) ;;
   _ <- check (0 <=? offset_) ;;
   t <- sadd bytes offset_ ;;
@@ -131,13 +152,13 @@ Definition host_copy_args (m : mem) (count offset : Z) : res (Z * Z) :=
 Definition memory_copyFromH (c : cfg) (h : option mem) (count offset : Z) : res plan :=
   match h with
   | None => if fx_this c then Throw else Ret PSkip
-  | Some m => a <- host_copy_args m count offset ;; Ret (PWrite m (fst a) (snd a))
+  | Some m => a <- host_copy_args c m count offset ;; Ret (PWrite m (fst a) (snd a))
   end.
 
 Definition memory_copyToH (c : cfg) (h : option mem) (count offset : Z) : res plan :=
   match h with
   | None => if fx_this c then Throw else Ret PSkip
-  | Some m => a <- host_copy_args m count offset ;; Ret (PRead m (fst a) (snd a))
+  | Some m => a <- host_copy_args c m count offset ;; Ret (PRead m (fst a) (snd a))
   end.
 
 (* src.modeMemory->dtype_->bytes(): a null modeMemory is dereferenced *)
@@ -155,10 +176,10 @@ Definition memory_copyFromM (c : cfg) (this src : option mem) (count destOffset 
       _ <- check (negb (fx_other c) || match src with Some _ => true | None => false end) ;;
       let dt := mdt m in
       let elems := if count =? -1 then m_len m else toU count in
-      let bytes := toS (umul dt elems) in
-      destOffset_ <- smul dt destOffset ;;
+      bytes <- bytes_of c dt elems ;;
+      destOffset_ <- offset_of c dt destOffset ;;
       sdt <- deref_dt src ;;
-      srcOffset_ <- smul sdt srcOffset ;;
+      srcOffset_ <- offset_of c sdt srcOffset ;;
       _ <- check (-1 <=? bytes) ;;
       _ <- check (0 <=? destOffset_) ;;
       _ <- check (0 <=? srcOffset_) ;;
@@ -182,10 +203,10 @@ Definition memory_copyToM (c : cfg) (this dest : option mem) (count destOffset s
       _ <- check (negb (fx_other c) || match dest with Some _ => true | None => false end) ;;
       let dt := mdt m in
       let elems := if count =? -1 then m_len m else toU count in
-      let bytes := toS (umul dt elems) in
+      bytes <- bytes_of c dt elems ;;
       ddt <- deref_dt dest ;;
-      destOffset_ <- smul ddt destOffset ;;
-      srcOffset_ <- smul dt srcOffset ;;
+      destOffset_ <- offset_of c ddt destOffset ;;
+      srcOffset_ <- offset_of c dt srcOffset ;;
       _ <- check (-1 <=? bytes) ;;
       _ <- check (0 <=? destOffset_) ;;
       _ <- check (0 <=? srcOffset_) ;;
@@ -212,16 +233,16 @@ Definition memory_cast (c : cfg) (h : option mem) (dt : Z) : res (option mem) :=
 (* ---------------------------------------------------------------- src/core/device.cpp *)
 
 (* device::malloc(entries, dtype, const void *src, props): (bytes) of the new memory, None when entries == 0 *)
-Definition device_malloc_bytes (entries dt : Z) : res (option Z) :=
+Definition device_malloc_bytes (c : cfg) (entries dt : Z) : res (option Z) :=
   if entries =? 0 then Ret None else
-  bytes <- smul entries dt ;;
+  bytes <- (if fx_ovf c then entries_to_bytes entries dt else smul entries dt) ;;
   _ <- check (0 <=? bytes) ;;
   Ret (Some bytes).
 
 (* device::malloc(entries, dtype, const occa::memory src, props); `b` is the buffer the allocation would get;
    fdt is the dtype the caller sets afterwards (clone: mem.setDtype(dtype())) *)
 Definition device_mallocM (c : cfg) (b : nat) (entries dt : Z) (src : option mem) (fdt : Z) : res plan :=
-  ob <- device_malloc_bytes entries dt ;;
+  ob <- device_malloc_bytes c entries dt ;;
   match ob with
   | None => Ret (PSetHandle None)
   | Some bytes =>
@@ -252,8 +273,8 @@ Definition memory_clone (c : cfg) (b : nat) (h : option mem) : res plan :=
   end.
 
 (* device::wrapMemory(ptr, entries, dtype) *)
-Definition device_wrap (entries dt seed : Z) : res plan :=
-  bytes <- smul entries dt ;;
+Definition device_wrap (c : cfg) (entries dt seed : Z) : res plan :=
+  bytes <- (if fx_ovf c then entries_to_bytes entries dt else smul entries dt) ;;
   _ <- check (0 <=? bytes) ;;
   Ret (PAlloc bytes dt true (IHost seed)).
 
@@ -263,13 +284,13 @@ Definition frontend (c : cfg) (s : state) (o : op) : res plan :=
   let nb := length (bufs s) in
   match o with
   | OMalloc d n dt =>
-      ob <- device_malloc_bytes n dt ;;
+      ob <- device_malloc_bytes c n dt ;;
       Ret (match ob with None => PSetHandle None | Some bytes => PAlloc bytes dt false INone end)
   | OMallocH d n dt seed uhp =>
-      ob <- device_malloc_bytes n dt ;;
+      ob <- device_malloc_bytes c n dt ;;
       Ret (match ob with None => PSetHandle None | Some bytes => PAlloc bytes dt uhp (IHost seed) end)
   | OMallocM d n dt sidx => device_mallocM c nb n dt (H sidx) dt
-  | OWrap d n dt seed => device_wrap n dt seed
+  | OWrap d n dt seed => device_wrap c n dt seed
   | OSlice d sidx off cnt => r <- memory_slice c (H sidx) off cnt ;; Ret (PSetHandle r)
   | OCast d sidx dt => r <- memory_cast c (H sidx) dt ;; Ret (PSetHandle r)
   | OClone d sidx => memory_clone c nb (H sidx)
